@@ -5,6 +5,7 @@ import (
 	"context"
 	"encoding/binary"
 	"fmt"
+	"strings"
 
 	"google.golang.org/protobuf/proto"
 
@@ -57,6 +58,7 @@ type Ledger struct {
 	AccH     map[uint64]uint64 // height -> DA height of an accepted header blob
 	AccD     map[uint64]uint64
 	// AccHEpochs / AccDEpochs: the incarnations (fence epochs) of the submitting node in which the part was accepted
+	// and the acceptance acknowledged to the node
 	AccHEpochs map[uint64]map[int]bool
 	AccDEpochs map[uint64]map[int]bool
 	maxHW      uint64 // largest persisted header watermark seen
@@ -175,14 +177,17 @@ func (l *Ledger) Scan() (oracle, msg string) {
 			}
 		}
 		for i := 0; i < c.Accepted && i < len(infos); i++ {
-			eps := l.AccHEpochs
-			if kind != 0 {
-				eps = l.AccDEpochs
+			if strings.HasPrefix(c.Outcome, "accept") || strings.HasPrefix(c.Outcome, "prefix") {
+				// only an acknowledged acceptance lets the submitting incarnation note it
+				eps := l.AccHEpochs
+				if kind != 0 {
+					eps = l.AccDEpochs
+				}
+				if eps[infos[i].Height] == nil {
+					eps[infos[i].Height] = map[int]bool{}
+				}
+				eps[infos[i].Height][c.Epoch] = true
 			}
-			if eps[infos[i].Height] == nil {
-				eps[infos[i].Height] = map[int]bool{}
-			}
-			eps[infos[i].Height][c.Epoch] = true
 			if kind == 0 {
 				if _, ok := l.AccH[infos[i].Height]; !ok {
 					l.AccH[infos[i].Height] = c.Height
